@@ -43,7 +43,7 @@ Fixpoint has_prefix (p d : bytes) : bool :=
   end.
 
 (* strings.HasSuffix(d, s) and strings.TrimSuffix(d, s) *)
-Definition has_suffix (s d : bytes) : bool := has_prefix (rev s) (rev d).
+Definition has_suffix (s d : bytes) : bool := has_prefix (rev_append s []) (rev_append d []).
 Definition trim_suffix (s d : bytes) : bytes :=
   if has_suffix s d then firstn (length d - length s) d else d.
 
@@ -540,3 +540,7 @@ Definition stored (d : dir) (path vers : bytes) : option archive :=
   end.
 
 End Model.
+
+Arguments Ret {A} a.
+Arguments ArchDo {A} name k.
+Arguments ZipDo {A} name v k.
